@@ -656,4 +656,59 @@ Section Entries.
     unfold bindM at 1. rewrite (new_is_construct cd cd cd _ s Rt (or_introl eq_refl) Hd Hd).
     unfold clone_kwargs_src. fold B. destruct (construct re_match e cd (merge_kw B over)); reflexivity.
   Qed.
+
+  (* the source's keyword list and the model's [clone_kwargs] bind the same names to the same values *)
+  Lemma merge_get : forall (over base : kwargs) n,
+      has_dup (map fst over) = false ->
+      alist_get (merge_kw base over) n = match alist_get over n with Some v => Some v | None => alist_get base n end.
+  Proof.
+    unfold merge_kw. induction over as [|[k v] t IH]; intros base n Hd; [reflexivity|].
+    cbn [map fst has_dup] in Hd. apply orb_false_iff in Hd. destruct Hd as [Hd1 Hd2].
+    cbn [fold_left fst snd alist_get]. rewrite (IH (alist_set base k v) n Hd2).
+    destruct (pystr_eqb k n) eqn:E.
+    - apply pystr_eqb_spec in E. subst n. rewrite (alist_get_none_notin t k Hd1). apply get_set_same.
+    - destruct (alist_get t n); [reflexivity|]. apply get_set_other, E.
+  Qed.
+
+  Lemma flat_map_skip_get (q : pystr -> bool) (g : pystr -> option (pystr * pyval)) n : forall ks,
+      (forall k p, g k = Some p -> fst p = k) ->
+      alist_get (flat_map (fun k => if q k then [] else olist (g k)) ks) n =
+      if q n then None else alist_get (flat_map (fun k => olist (g k)) ks) n.
+  Proof.
+    intros ks Hg. induction ks as [|k t IH]; [destruct (q n); reflexivity|].
+    cbn [flat_map]. rewrite !alist_get_app, IH.
+    destruct (q k) eqn:Eq.
+    - cbn [alist_get]. destruct (g k) as [p|] eqn:Eg; cbn [olist alist_get]; [|reflexivity].
+      rewrite (Hg k p Eg) || idtac. destruct p as [pk pv]. cbn [alist_get]. pose proof (Hg k _ Eg) as Hk. cbn [fst] in Hk. subst pk.
+      destruct (pystr_eqb k n) eqn:E; [|reflexivity]. apply pystr_eqb_spec in E. subst n. rewrite Eq. reflexivity.
+    - destruct (g k) as [[pk pv]|] eqn:Eg; cbn [olist alist_get]; [|reflexivity].
+      pose proof (Hg k _ Eg) as Hk. cbn [fst] in Hk. subst pk.
+      destruct (pystr_eqb k n) eqn:E; [|reflexivity]. apply pystr_eqb_spec in E. subst n. rewrite Eq. reflexivity.
+  Qed.
+
+  Theorem clone_kwargs_src_same_bindings : forall cd a over n,
+      has_dup (map fst over) = false ->
+      alist_get (clone_kwargs_src cd a over) n = alist_get (clone_kwargs cd a over) n.
+  Proof.
+    intros cd a over n Hd. unfold clone_kwargs_src. rewrite (merge_get over _ n Hd).
+    unfold clone_kwargs. rewrite alist_get_app.
+    assert (E : flat_map (fun k => if alist_has over k then []
+                                   else match getattr_opt cd a k with
+                                        | Some v => if not_none v then [(k, v)] else []
+                                        | None => []
+                                        end) (field_names cd) =
+                flat_map (fun k => if alist_has over k then [] else olist (cast_pick cd a k)) (field_names cd)).
+    { apply flat_map_ext. intro k. destruct (alist_has over k); [reflexivity|]. unfold cast_pick.
+      destruct (getattr_opt cd a k) as [v|]; [|reflexivity]. destruct (not_none v); reflexivity. }
+    rewrite E. rewrite (flat_map_skip_get (alist_has over) (cast_pick cd a) n).
+    2:{ intros k p H. unfold cast_pick in H. destruct (getattr_opt cd a k) as [v|]; [|discriminate H].
+        destruct (not_none v); inversion H; reflexivity. }
+    rewrite <- cast_kwargs_pick. unfold alist_has. destruct (alist_get over n); [reflexivity|].
+    destruct (alist_get (cast_kwargs cd cd a) n); reflexivity.
+  Qed.
 End Entries.
+
+Print Assumptions generated_cast_to_is_entry.
+Print Assumptions generated_from_other_is_entry.
+Print Assumptions generated_clone_is_constructor.
+Print Assumptions clone_kwargs_src_same_bindings.
